@@ -286,6 +286,10 @@ func hostport(s string) (host, port string) {
 		return "", ""
 	}
 	n := strings.LastIndexByte(s, ':')
+	// an address without a port ("host" or "[::1]") has no port to split off
+	if n < 0 || strings.HasSuffix(s, "]") {
+		return s, ""
+	}
 	return s[:n], s[n+1:]
 }
 
@@ -293,20 +297,22 @@ func hostport(s string) (host, port string) {
 // which does not alloc.
 func atoi(b *bytes.Buffer, i int64, pad int) {
 	var flag bool
+	// work on the magnitude as uint64 since -math.MinInt64 overflows int64
+	u := uint64(i)
 	if i < 0 {
 		flag = true
-		i = -i
+		u = -u
 	}
 
 	// format number
 	// 2^63-1 == 9223372036854775807
 	var d [128]byte
 	n, p := len(d), len(d)-1
-	for i >= 0 {
-		d[p] = byte('0') + byte(i%10)
-		i /= 10
+	for {
+		d[p] = byte('0') + byte(u%10)
+		u /= 10
 		p--
-		if i == 0 {
+		if u == 0 {
 			break
 		}
 	}
